@@ -447,6 +447,8 @@ pub const SPECIAL_GARBAGE: &[&[u8]] = &[
     b"\xc2\xa0", b"\xe2\x80\xa8", b"\x00", b"\x7f", b"\xef\xbb", b"\x08",
     // what other dialects call a comment
     b"//", b"/*", b"/*x*/", b"#", b"//x",
+    // what other producers write for values JSON does not have
+    b"NaN", b"Infinity", b"undefined", b"None", b"True", b"False", b"NULL",
 ];
 
 pub fn gen_garbage_region(rng: &mut Rng) -> Vec<u8> {
@@ -510,7 +512,7 @@ pub const SELECT_EXPRS: &[&str] = &[
     "(fold .arr 0 (+ .so_far .index))", "(range 3)", "(zip .arr .arr)", "(as_string .n)",
     "(as_number .s)", "(string? .s)", "(empty? .arr)", "(null? .h)", "(= .n .h)",
     "(< .n 10)", "(and (number? .n) (> .n 0))", "(or (null? .h) (string? .h))",
-    "(not (bool? .t))", "(abs .n)", "(round .n)", "(floor .n)", "(ceil .n)",
+    "(not (bool? .t))", "(and .t .h)", "(and .h .t)", "(or .t .h)", "(and .t .s .h)", "(or .h .s)", "(abs .n)", "(round .n)", "(floor .n)", "(ceil .n)",
     "(split .s \"a\")", "(\"+\" \"1.5\" \"2.25\")",
     "(parse (stringify .obj))", "(put .obj \"z\" .id)", "(sort_by_keys .obj)",
     "(map_values .obj (stringify .))", "(filter_keys .obj (= . \"a\"))", "(group_by .arr (stringify .))",
@@ -527,6 +529,7 @@ pub const REGEX_SELECT_EXPRS: &[&str] = &[
     "(match .g .s)", "(extract_regex_group .s \"(a+)(b*)\" 1)", "(match .s \"a|é\")",
     "(match (stringify .id) \"[02468]$\")", "(match .s \"(\")", "(extract_regex_group .s \"(a)|(b)\" 1)",
     "(extract_regex_group .s \"(x)?(a)\" 1)", "(match .s \"[0-9\")", "(set \"p\" .g (match .s :p))",
+    "(match (extract_regex_group .s \"(a+)\" 0) \"a\")", "(extract_regex_group (stringify (match .s \"a\")) \"(t)\" 1)",
 ];
 
 pub const FILTER_EXPRS: &[&str] = &[
@@ -548,12 +551,12 @@ pub const GROUP_EXPRS: &[&str] = &[".g", ".s", "(stringify .n)", "(stringify .id
 
 pub const SET_OPTS: &[&str] = &[
     "one=1", "name=\"N\"", "lst=[1, 2, 3]", "@inc=(+ . 1)", "@sid=(stringify .id)", "pi=3.14",
-    "o={\"a\": 1}",
+    "o={\"a\": 1}", "@mis=.missing",
 ];
 
 pub const SET_USERS: &[&str] = &[
     "(+ :one .n)", "(concat :name .s)", "(map :lst (+ . :one))", "(map .arr @inc)", "@sid",
-    "(get :o \"a\")", "(* :pi 2)",
+    "(get :o \"a\")", "(* :pi 2)", "@mis",
 ];
 
 #[derive(Clone, Copy, Debug)]
@@ -623,6 +626,9 @@ fn set_users_for(chosen: &[usize]) -> Vec<usize> {
     }
     if has(5) {
         v.push(6);
+    }
+    if has(7) {
+        v.push(7);
     }
     v
 }
